@@ -2,7 +2,7 @@
    Only statements here; proofs live in Proofs/C22_Civil.v and Proofs/C22_Format.v.
    The model (Model/C22_Civil.v) mirrors /repo/value WITH fixes/C22-*.patch applied. *)
 From Coq Require Import ZArith List.
-From Elk Require Import Base.GoSem Model.C22_Civil Proofs.C22_Civil Proofs.C22_Format.
+From Elk Require Import Base.GoSem Model.C22_Civil Model.C22_Zone Proofs.C22_Civil Proofs.C22_Format Proofs.C22_Zone.
 Import ListNotations.
 Open Scope Z_scope.
 
@@ -94,6 +94,52 @@ Theorem C22_format_parse : forall y m d,
   parse [TIso] (format [TIso] (pack y m d)) = inr (pack y m d).
 Proof. exact format_parse_default. Qed.
 Print Assumptions C22_format_parse.
+
+(* DateTime in fixed-offset zones (Model/C22_Zone.v; value = civil fields + offset, instant =
+   civil fields - offset).  What `%z` / `%:z` print for an offset is read back as exactly that
+   offset - every whole-minute offset strictly between -24 h and +24 h, BOTH signs, whatever text
+   follows - and DateTime.parse(dt.to_string) returns dt (all civil fields, the nanoseconds and
+   the offset, hence the same instant) for every valid DateTime with a representable year. *)
+Theorem C22_offset_format_parse :
+  (forall colon off rest, valid_off off -> parse_off colon (fmt_off colon off ++ rest) = Some (off, rest)) /\
+  (forall t, valid_zdt t -> year_in_range (zy t) = true -> valid_off (zoff t) ->
+     zparse zdefault_format (zformat zdefault_format t) = inr t).
+Proof. split; [exact off_rt | exact zformat_parse_default]. Qed.
+Print Assumptions C22_offset_format_parse.
+
+(* Results do not depend on the history.  The code as it is has no state (parse_off is a
+   function).  If the zone created for a parsed offset is memoised in a process-wide table, every
+   history of parses (run_memo, starting from the empty table) still gives the isolated results
+   provided the key determines the offset - e.g. a key that contains the sign. *)
+Theorem C22_history_independent :
+  (forall key, (forall sg h mi sg' h' mi', key sg h mi = key sg' h' mi' -> off_of sg h mi = off_of sg' h' mi') ->
+     forall hist, run_memo key [] hist = run_isolated hist) /\
+  (forall hist, run_memo key_signed [] hist = run_isolated hist).
+Proof. split; [exact memo_transparent | exact (memo_transparent key_signed key_signed_determines)]. Qed.
+Print Assumptions C22_history_independent.
+
+(* A table keyed by the absolute hours and minutes only is NOT transparent: after "+09:00" the
+   text "-09:00" is parsed as +09:00 (the class of defect stream c22.hist searches for). *)
+Theorem C22_history_unsigned_key_refuted : exists hist,
+  run_memo key_unsigned [] hist <> run_isolated hist /\
+  run_isolated hist = [Some (32400, []); Some (-32400, [])] /\
+  run_memo key_unsigned [] hist = [Some (32400, []); Some (32400, [])].
+Proof.
+  exists [(true, [43; 48; 57; 58; 48; 48]); (true, [45; 48; 57; 58; 48; 48])].
+  repeat split; vm_compute; first [reflexivity | discriminate].
+Qed.
+Print Assumptions C22_history_unsigned_key_refuted.
+
+Example C22_zone_nonvacuous :
+  valid_off (-32400) /\ valid_off 49500 /\
+  valid_zdt (mkZ 1999 12 31 18 0 0 0 (-32400)) /\
+  fmt_off true (-32400) = [45; 48; 57; 58; 48; 48] /\
+  fmt_off false 20700 = [43; 48; 53; 52; 53] /\
+  instant (mkZ 1999 12 31 18 0 0 0 (-32400)) = 946695600 /\
+  instant (mkZ 1999 12 31 18 0 0 0 32400) = 946630800 /\
+  in_zone (mkZ 1999 12 31 18 0 0 0 (-32400)) 32400 = mkZ 2000 1 1 12 0 0 0 32400 /\
+  zparse zdefault_format (zformat zdefault_format (mkZ (-5) 3 1 6 7 8 9 (-12600))) = inr (mkZ (-5) 3 1 6 7 8 9 (-12600)).
+Proof. unfold valid_off, valid_zdt, valid_date. repeat split; vm_compute; first [reflexivity | discriminate]. Qed.
 
 Example C22_nonvacuous :
   valid_date (-5) 3 1 /\ year_in_range (-5) = true /\
